@@ -3,7 +3,7 @@
    The AES block cipher and MD5 are function arguments; what is assumed of AES is stated as a
    hypothesis of each theorem (dec k (enc k b) = b and |enc k b| = 16 on 16-byte blocks). *)
 From Coq Require Import ZArith NArith List Bool.
-From PV Require Import Lib.GoInt C22.Model C22.Proofs.
+From PV Require Import Lib.GoInt C22.Model C22.Proofs C22.ProofsPw.
 Import ListNotations.
 
 (* RC4 with the same key twice is the identity: all keys, all data (any N, not only bytes). *)
@@ -114,6 +114,49 @@ Proof.
   intro r. split; [apply p_reported_written|]. split; [apply p_exact | apply p_written_range].
 Qed.
 Print Assumptions C22_perms_reported.
+
+(* Passwords, R2-R4.  The three sites that pad/truncate a password to 32 bytes — encKey (Alg. 2a), key
+   (Alg. 3a) and o (Alg. 3e) — all see only pad32 pw = firstn 32 (pw ++ pad), i.e. the first 32 BYTES
+   (never a rune boundary), so they agree on every password. *)
+Theorem C22_pad32_prefix : forall md5 pw opw upw o p id r emd l,
+  pad32 pw = firstn 32 (pw ++ pad_const) /\ pad32 (firstn 32 pw) = pad32 pw /\ pad32 (pad32 pw) = pad32 pw /\
+  encKey md5 (firstn 32 upw) o p id r emd l = encKey md5 upw o p id r emd l /\
+  (opw <> [] -> ownerKey md5 (firstn 32 opw) upw r l = ownerKey md5 opw upw r l) /\
+  (opw <> [] -> compute_o md5 opw (firstn 32 upw) r l = compute_o md5 opw upw r l).
+Proof.
+  intros. repeat split.
+  - apply pad32_spec.
+  - apply pad32_prefix.
+  - apply pad32_idempotent.
+  - apply encKey_prefix.
+  - apply ownerKey_prefix.
+  - apply compute_o_user_prefix.
+Qed.
+Print Assumptions C22_pad32_prefix.
+
+(* Algorithm 7 undoes Algorithm 3: from /O and the owner password the reader recovers exactly the padded
+   user password, for every pair of passwords (any length, any bytes). *)
+Theorem C22_owner_recovers_user : forall md5 opw upw r l ov, (r = 2 \/ r = 3 \/ r = 4)%Z ->
+  compute_o md5 opw upw r l = Ok ov ->
+  rc4_chain (recover_chain (ownerKey md5 opw upw r l) r) ov = Ok (pad32 upw).
+Proof. exact owner_recovers_user. Qed.
+Print Assumptions C22_owner_recovers_user.
+
+(* Whichever credential opens the file, the verdict and the file key are the same: the owner password alone
+   (whatever is in ctx.UserPW) gives what the user password gives, and the user password validates against
+   its own /U with the key the document was encrypted with. *)
+Theorem C22_either_password_opens : forall md5 opw upw any p id r emd l o u key, (r = 2 \/ r = 3 \/ r = 4)%Z ->
+  opw <> [] ->
+  compute_o md5 opw upw r l = Ok o ->
+  compute_u md5 upw o p id r emd l = Ok (u, key) ->
+  validateUser md5 upw o u p id r emd l = Ok (true, key) /\
+  validateOwner md5 opw any o u p id r emd l = Ok (true, key).
+Proof.
+  intros md5 opw upw any p id r emd l o u key Hr Hne Ho Hu.
+  pose proof (user_password_opens md5 upw o p id r emd l u key Hr Hu) as H1.
+  split; [exact H1|]. rewrite (owner_password_opens md5 opw upw any o u p id r emd l Hr Hne Ho). exact H1.
+Qed.
+Print Assumptions C22_either_password_opens.
 
 (* non-vacuity: the AES hypotheses are satisfiable (identity cipher), RC4 matches the published
    test vector rc4("Key","Plaintext") = BBF316E8D940AF0AD3, padding of 0 / 16 bytes adds a full block,
